@@ -6,7 +6,6 @@ import (
 	"fmt"
 	"os"
 	"path/filepath"
-	"runtime/debug"
 	"sort"
 	"strconv"
 	"strings"
@@ -48,6 +47,7 @@ func main() {
 	mutJSON := flag.String("mutant-json", "", "internal: overlay edit set {file, edits:[[old,new],…]} read from a JSON file")
 	mutAll := flag.Bool("mutant-all", false, "internal: replace every occurrence of the anchor (renames)")
 	manifest := flag.Bool("manifest", false, "regenerate MANIFEST.json from the registered properties")
+	forceNF := flag.Bool("normal-form", false, "evaluate on the inlined normal form of the sources instead of the sources (self-consistency of the second pass)")
 	freeze := flag.Bool("freeze-params", false, "maintenance: rewrite checker/params_frozen.go from the current tree")
 	flag.Parse()
 	if t := os.Getenv("VERIF_TIER"); t == "quick" || t == "thorough" {
@@ -142,6 +142,14 @@ func main() {
 		}
 		os.Exit(1)
 	}
+	if *forceNF {
+		w2 := secondWorld(w, opts)
+		if w2 == nil {
+			fmt.Println("internal: the normal form could not be built or does not type-check (BANDCHECK_DEBUG=1 for the errors)")
+			os.Exit(1)
+		}
+		w = w2
+	}
 	if *warm {
 		w.CG()
 		fmt.Printf("warm: %d packages, %d functions, load %.1fs ssa %.1fs cg %.1fs\n", len(w.Pkgs), len(w.AllFuncs), w.LoadS, w.SSAS, w.CGS)
@@ -152,6 +160,7 @@ func main() {
 	}
 	if *freeze {
 		w.Requested = map[string]bool{}
+		recordPats = map[string]bool{}
 		for _, id := range sortedKeys(props) {
 			func() {
 				defer func() { recover() }()
@@ -166,6 +175,27 @@ func main() {
 				keys[k] = true
 				for _, a := range fn.AnonFuncs {
 					keys[FuncKey(a)] = true
+				}
+			}
+		}
+		pats := recordPats
+		recordPats = nil
+		for k := range recordDecls {
+			if fn := w.Funcs[k]; fn != nil {
+				keys[k] = true
+			}
+		}
+		for k, fn := range w.Funcs {
+			if fn == nil || fn.Parent() != nil || len(fn.Blocks) == 0 || !inRepoScope(fn) || keys[k] {
+				continue
+			}
+			for pat := range pats {
+				if strings.Contains(pat, ".") && nameMatch(k, pat) {
+					keys[k] = true
+					for _, a := range fn.AnonFuncs {
+						keys[FuncKey(a)] = true
+					}
+					break
 				}
 			}
 		}
@@ -199,6 +229,16 @@ func main() {
 				continue
 			}
 			sb.WriteString("\t" + strconv.Quote(k) + ": " + strconv.Quote(sigFingerprint(fn)) + ",\n")
+		}
+		sb.WriteString("}\n\n// body fingerprints, used to pick the renamed anchor when several functions share its signature\nvar frozenBodies = map[string]string{\n")
+		for _, k := range sortedKeys(keys) {
+			fn := w.Funcs[k]
+			if fn == nil || fn.Parent() != nil {
+				continue
+			}
+			if h := bodyFingerprint(w, fn); h != "" {
+				sb.WriteString("\t" + strconv.Quote(k) + ": " + strconv.Quote(h) + ",\n")
+			}
 		}
 		sb.WriteString("}\n")
 		out := filepath.Join(verifDir(), "checker", "params_frozen.go")
@@ -263,17 +303,20 @@ func main() {
 		// overlay mode over every property at once (used by the behaviour-preserving sweep)
 		known, _ := loadKnownFindings(verifDir())
 		n := 0
+		var w2 *World
+		tried2 := false
 		for _, id := range sortedKeys(props) {
-			r := NewReport(id, "quick", w)
-			func() {
-				defer func() {
-					if e := recover(); e != nil {
-						r.Rule(id+".internal", "engine")
-						r.Unres("panic", "the engines run to completion", fmt.Sprintf("engine panic: %v", e))
-					}
-				}()
-				props[id](r)
-			}()
+			r, _ := runProp(id, w, "quick")
+			if len(r.openRules(known)) > 0 {
+				if !tried2 {
+					tried2 = true
+					w2 = secondWorld(w, opts)
+				}
+				if w2 != nil {
+					r2, _ := runProp(id, w2, "quick")
+					adoptFromNormalForm(r, r2, known)
+				}
+			}
 			for _, o := range r.Obls {
 				isKnown := false
 				for _, kf := range known {
@@ -295,17 +338,17 @@ func main() {
 		fmt.Printf("unknown property %q; known: %v\n", *prop, sortedKeys(props))
 		os.Exit(2)
 	}
-	r := NewReport(*prop, *tier, w)
-	var meta propMeta
-	func() {
-		defer func() {
-			if e := recover(); e != nil {
-				r.Rule(*prop+".internal", "engine")
-				r.Unres("panic", "the engines run to completion", fmt.Sprintf("engine panic: %v\n%s", e, debug.Stack()))
+	_ = pf
+	r, meta := runProp(*prop, w, *tier)
+	{
+		known, _ := loadKnownFindings(verifDir())
+		if len(r.openRules(known)) > 0 {
+			if w2 := secondWorld(w, opts); w2 != nil {
+				r2, _ := runProp(*prop, w2, *tier)
+				adoptFromNormalForm(r, r2, known)
 			}
-		}()
-		meta = pf(r)
-	}()
+		}
+	}
 	if *mutant != "" {
 		// mutant mode: print violated keys, never touch evidence
 		n := 0
